@@ -38,6 +38,13 @@ def catalogue(tier: str):
          {'scheduling': {'stop after cycle point': 2,
                          'runahead limit': 'P1'}, 'stop': 2}, (), 'all'),
         ('failopt-fail', [('P1', shapes['failopt'])], 1, {}, ('a',), 'all'),
+        # a limited queue whose first member finishes incomplete
+        ('queue1-fail', [('P1', [N('a'), N('b')])], 1,
+         {'queues': {'q': {'limit': 1, 'members': ['a', 'b']}}}, ('a',),
+         'all'),
+        # an incomplete task elsewhere while a chain keeps spawning
+        ('incomplete-elsewhere', [('P1', [N('x'), E(A('a'), 'b')])], 2, {},
+         ('x',), 'all'),
     ]
     if tier == 'thorough':
         rows += [
